@@ -176,6 +176,17 @@ def _pump(ctx, R, roles, li, T):
                 k0 = k1 = "*"
             R.check(ok, "KIND-get", sub, "store get() keyed by the pair the look-up returned, in (remote, local) order",
                     "store get() is not keyed by the (remote, local) pair returned by the look-up", f.loc(n.ast))
+    # clear(): keyed (remote id, local id) like every other store call - the tests use equal ids and cannot tell the two orders apart
+    for n in g.live_nodes():
+        for c in _store_calls(ctx, f, n, ("clear",)):
+            sub = "%s|%s" % (f.qualname, norm_stmt(c))
+            ok = len(c.args) == 2 and not c.keywords
+            if ok:
+                k0, _t0 = expr_kind(ctx, f, n, c.args[0])
+                k1, _t1 = expr_kind(ctx, f, n, c.args[1])
+                ok = k0 == Rk and k1 == L
+            R.check(ok, "KIND-clear", sub, "store clear() keyed (remote id, local id)",
+                    "store clear() is not keyed (remote id, local id): with unequal ids it forgets ANOTHER stream's entry (the one whose ids mirror this stream's) and leaves its own", f.loc(n.ast))
     # -- routing of the packet just read ---------------------------------------------------------------------
     wterm = T.term(f, wn, wc)
     puts = [(n, c) for n in g.live_nodes() for c in _store_calls(ctx, f, n, ("put",))]
